@@ -11,7 +11,7 @@ import (
 )
 
 func init() {
-	simrt.Register(&simrt.Prop{ID: "C10", Gen: genC10, Exec: execL2Seq})
+	simrt.Register(&simrt.Prop{ID: "C10", Gen: genC10, Exec: execC10})
 	simrt.Register(&simrt.Prop{ID: "C12", Gen: genC12, Exec: execC12})
 	simrt.Register(&simrt.Prop{ID: "C13", Gen: genC13, Exec: execL2Seq})
 }
@@ -158,7 +158,113 @@ func genC10(r *simrt.Rand, tier string) *simrt.Plan {
 	}
 	ops = append(ops, simrt.Op{K: "rblocks"}, simrt.Op{K: "twin", I: []int64{g.row(), g.col()}})
 	p.Clients = [][]simrt.Op{ops}
+	if r.Bool(0.4) {
+		// a second client asks for the checksums while the first one writes (anti-entropy
+		// requests arrive whenever they arrive)
+		var c1 []simrt.Op
+		for i := 0; i < 3+r.Intn(10); i++ {
+			c1 = append(c1, simrt.Op{K: "rblocksconc", I: []int64{int64(r.Intn(6))}})
+		}
+		p.Clients = append(p.Clients, c1)
+		// the reader holds the fragment: it is not closed and reopened under it (the view keeps
+		// a fragment open for as long as requests can reach it)
+		for i := range ops {
+			if ops[i].K == "reopen" {
+				ops[i].K = "snapshot"
+			}
+		}
+	}
 	return p
+}
+
+// execC10: client 0 as in execL2Seq; further clients run concurrently and only read.
+func execC10(c *simrt.Ctx) {
+	if len(c.Plan.Clients) < 2 {
+		execL2Seq(c)
+		return
+	}
+	var h *l2
+	ok := c.Do("setup", func() {
+		h = newL2(c)
+		c.State = h
+		if err := h.open(); err != nil {
+			c.Fail("open-error", "%v", err)
+		}
+	})
+	if ok && !c.Failed() {
+		for ci := range c.Plan.Clients {
+			ci := ci
+			c.Go(fmt.Sprintf("c%d", ci), func() {
+				for _, op := range c.Plan.Clients[ci] {
+					if c.Failed() || c.Stopped() {
+						return
+					}
+					if ci == 0 {
+						h.apply(op)
+					} else {
+						for i := int64(0); i < op.I[0]; i++ {
+							simrt.Yield("reader-pause")
+						}
+						h.concBlocks()
+					}
+					c.OpDone()
+				}
+			})
+		}
+		c.RunTasks()
+	}
+	if !c.Failed() {
+		c.Do("teardown", func() { h.close() })
+	}
+	c.Do("shutdown", func() { h.shutdown() })
+}
+
+var c10ConcN int
+
+func (h *l2) allBits() [][2]uint64 {
+	var out [][2]uint64
+	_ = h.f.forEachBit(func(r, c uint64) error { out = append(out, [2]uint64{r, c}); return nil })
+	return out
+}
+
+// concBlocks is a reader racing with writes: checksums, contents, checksums, contents. When
+// both checksum lists and both content lists agree, no write took effect in between (a write
+// changes contents and invalidates the touched blocks in one critical section), so the list
+// must be the checksums of those contents - judged against a twin fragment built from them.
+func (h *l2) concBlocks() {
+	f := h.f
+	c1 := f.Blocks()
+	d1 := h.allBits()
+	c2 := f.Blocks()
+	d2 := h.allBits()
+	if !eqBlocks(c1, c2) || fmt.Sprint(d1) != fmt.Sprint(d2) {
+		h.c.Probe("conc-blocks-raced")
+		return
+	}
+	c10ConcN++
+	tw := h.newFrag(fmt.Sprintf("%s.conc%d", h.path, c10ConcN))
+	tw.snapshotQueue = nil
+	tw.mutexVector = nil
+	if err := tw.Open(); err != nil {
+		h.c.Fail("twin-open", "%v", err)
+		return
+	}
+	defer tw.Close()
+	if len(d1) > 0 {
+		rows, cols := make([]uint64, len(d1)), make([]uint64, len(d1))
+		for i, b := range d1 {
+			rows[i], cols[i] = b[0], b[1]
+		}
+		if err := tw.bulkImport(rows, cols, &ImportOptions{}); err != nil {
+			h.c.Fail("twin-import", "%v", err)
+			return
+		}
+	}
+	if want := tw.Blocks(); !eqBlocks(c1, want) {
+		h.c.Fail("stale-checksum", "a reader during %s saw Blocks()=%s twice around contents whose checksums are %s (%d bits)", h.lastWrite, blocksString(c1), blocksString(want), len(d1))
+		return
+	}
+	h.c.Probe("conc-blocks-checked")
 }
 
 // ---- C12 ---------------------------------------------------------------------
